@@ -581,6 +581,14 @@ func decodeCase(buf []byte, dotu bool, measure bool) {
 	var alloc uint64
 	_ = measure
 	alloc = allocOf(func() { u, fc = unpackStr(buf, dotu) })
+	// TotalAlloc counts every goroutine of the process: what other goroutines (runtime workers, the
+	// logger) allocate meanwhile is noise that only adds. A suspicious figure is measured again; the
+	// smallest of three counts.
+	for i := 0; i < 2 && alloc > 64*uint64(len(buf))+2048 && alloc < 1<<22; i++ {
+		if a2 := allocOf(func() { _, _ = unpackStr(buf, dotu) }); a2 < alloc {
+			alloc = a2
+		}
+	}
 	if alloc > 64*uint64(len(buf))+(1<<22) {
 		decodeRunaway++ // the oracle reports it; stop before the machine runs out of memory
 	}
